@@ -11,7 +11,7 @@
 (* or still pending, so that ignored entries simply drop out; for override the base tree [s] is       *)
 (* replaced by [remove_key k s] whenever the node that came from key [k] is overwritten.              *)
 From Coq Require Import Permutation.
-From Tempren Require Import Base.Str Py.PathLib Py.PathLibProofs FS.Model FS.Lemmas FS.WfCheck Pipe.Pipeline
+From Tempren Require Import Base.Str Py.PathLib Py.PathLibProofs FS.Model FS.Lemmas FS.WfCheck Pipe.Pipeline Pipe.DestParent
   Corr.PipeCorr Pipe.PlanExact Pipe.Strategies.
 Open Scope N_scope.
 (* the walk is used only through lemmas; without this the kernel may unfold [walk walk_fuel] at Qed *)
@@ -91,6 +91,7 @@ Proof.
     destruct (generate (c_mode c) f r) as [np|ex]; [|intros E; inversion E; subst; exact (fun H => H)].
     destruct (ppath_eqb np (pf_rel f)) eqn:Eq; [apply IH|].
     destruct (contained (c_var c) (w_fs w) f np) as [[|]|]; try (intros E; inversion E; subst; exact (fun H => H)).
+    destruct (dest_parent_test (c_var c) (w_fs w) f np) as [[|]|]; try (intros E; inversion E; subst; exact (fun H => H)).
     destruct (parents_contained (w_fs w) f np) as [[|]|]; try (intros E; inversion E; subst; exact (fun H => H)).
     destruct (source_contained (w_fs w) f) as [[|]|]; try (intros E; inversion E; subst; exact (fun H => H)).
     destruct (renamer c w cw (pf_rel f) np false) as [w1 [e1|]]; [|apply IH].
@@ -277,7 +278,7 @@ Proof.
     + assert (Hne : dst_key f t <> src_key f).
       { intros Z. rewrite (same_key_same_path f t Z) in Eq. discriminate. }
       destruct (dest_not_link D f t _ _ DP Hin I1 Hne) as [Hlen Hnl].
-      destruct (containment_ok2 D f t _ _ Hin I1 Hnl Hlen) as [Ct [Pc Sc]]. rewrite Ct, Pc, Sc.
+      destruct (containment_ok2 D f t _ _ Hin I1 Hnl Hlen) as [Ct [Pc Sc]]. rewrite Ct, (dest_parent_test_with_name _ _ _ _ _ Hg' Sc), Pc, Sc.
       pose proof (renamer_cases D f t _ w Hin I1) as RC.
       destruct (lookup (w_fs w) (dst_key f t)) as [m|].
       * rewrite RC. cbn [is_file_exists].
